@@ -40,17 +40,23 @@ Fixpoint trace (e : env) (c : chain) (h : list step) : list result :=
   | s :: h' => let r := deliver e c (fst s) (snd s) in r :: trace e (r_chain r) h'
   end.
 
-(* A message can also be executed without its effects ever reaching the chain: in simulation or CheckTx mode, or as an
-   early message of a transaction whose later message fails.  The SDK runs the handler on a branch and drops the branch
-   whatever the outcome; the caller still sees the outcome. *)
+(* Messages can also be executed without their effects ever reaching the chain: in simulation or CheckTx mode, or as the
+   early messages of a transaction whose later message fails.  The SDK runs the handlers, one after the other, on one
+   branch of the chain and drops the branch whatever the outcomes; the caller still sees the outcomes. *)
 Definition simulate (e : env) (c : chain) (plan : list directive) (t : tx) : outcome := r_out (deliver e c plan t).
+(* the outcomes seen along a dropped branch: each message runs on what the previous ones left, up to the first failure *)
+Fixpoint branch_outcomes (e : env) (c : chain) (l : list step) : list outcome :=
+  match l with
+  | [] => []
+  | s :: l' => let r := deliver e c (fst s) (snd s) in
+               r_out r :: match r_out r with OOk _ => branch_outcomes e (r_chain r) l' | _ => [] end
+  end.
 
-Inductive mode := Delivered | Discarded.
-Definition mstep := (mode * step)%type.
+Inductive mstep := Delivered (s : step) | Dropped (branch : list step).
 Definition run_mstep (e : env) (c : chain) (s : mstep) : chain :=
-  match fst s with Delivered => run_step e c (snd s) | Discarded => c end.
+  match s with Delivered s => run_step e c s | Dropped _ => c end.
 Definition run_modes (e : env) (c : chain) (h : list mstep) : chain := fold_left (run_mstep e) h c.
-Definition delivered (h : list mstep) : list step :=
-  map snd (filter (fun s => match fst s with Delivered => true | Discarded => false end) h).
+Fixpoint delivered (h : list mstep) : list step :=
+  match h with [] => [] | Delivered s :: h' => s :: delivered h' | Dropped _ :: h' => delivered h' end.
 
 Definition is_ok (r : result) : bool := match r_out r with OOk _ => true | _ => false end.
